@@ -1,4 +1,4 @@
-import MahfModel.Model.Borrow
+import MahfModel.Model.BorrowMulti
 open MahfModel
 
 /-- Class of the first deviating outcome (for known-findings matching). -/
@@ -20,9 +20,11 @@ def c02Class (spec impl : Sexp) : String :=
 
 /-- K: the code-shaped model (RefCell flags, marker keys) equals the implementation;
 O: the implementation equals the abstract machine (stack of maps + live guard set: many readers xor one
-writer; `holding` puts the value back into the scope it came from). -/
+writer; `holding` puts the value back into the scope it came from; a multi-borrow through ANY public entry point —
+trait method, registry front-ends, on any `parent_mut()`, on the `State` wrapper — is granted iff no type repeats and
+every type is visible from the addressed registry). -/
 def c02 (input implOut : Sexp) : Option Verdict := do
-  let (model, spec) ← Borrow.handleCase input
+  let (model, spec) ← BorrowMulti.handleCase input
   let agree := Sexp.beq model implOut
   let holds := Sexp.beq spec implOut
   pure { agree, holds, cls := if holds then "-" else c02Class spec implOut, model }
